@@ -175,13 +175,9 @@ def run_c18(ex, g, tier):
         if (rc == 0) != want_ok or (want_ok and lines != want_lines):
             ex.violate("chaining: second invocation on the piped output differs from evaluating the second rule on the parsed output",
                        "cli " + json.dumps({"logic": c[0], "data": c[1], "mode": "stdin"}), "%s exit=%s" % (lines[:4], rc), "%s exit %s" % (want_lines[:4], "0" if want_ok else "!=0"))
-    # the value printed is the library's value: parse(result line) == model result (checked through the model's ser above, and here through the real parser)
-    chk = [(i, o) for i, o in items if expected[i][1]]
-    back = codec.parse_many([o for _, o in chk])
-    rt = R.impl(["roundtrip " + b[3:] for b in back if b.startswith("ok ")])
-    for b, r2 in zip([b for b in back if b.startswith("ok ")], rt):
-        if r2 != b:
-            ex.violate("serde_json text round trip changes a value the command printed", "roundtrip " + b[3:], r2, b)
+    # NOTE (false alarm removed): an earlier version also demanded parse(print(v)) == v of serde_json. The property does not: chaining is
+    # stated against "the parsed output of the first" invocation, whatever the parser makes of it; and serde_json 1.0.151 without its
+    # `float_roundtrip` feature does NOT re-read every float it prints (e.g. 2.5959450144065498e-306 comes back one ulp lower). See DESIGN.md §15.5.
 
 
 PY_CHILD = r'''
@@ -194,7 +190,14 @@ for raw in sys.stdin:
     t = json.loads(raw)
     try:
         kind = t["kind"]
-        if kind == "apply":
+        if kind == "mutate":
+            # the SAME rule object is evaluated, edited in place, and evaluated again: the second result must be that of the edited rule
+            r = t["value0"]
+            jsonlogic_rs.apply(r, t.get("data"))
+            if isinstance(r, dict): r.clear(); r.update(t["value"])
+            else: r[:] = t["value"]
+            res = jsonlogic_rs.apply(r, t.get("data"))
+        elif kind == "apply":
             args = [t["value"]] + ([t["data"]] if "data" in t else [])
             kw = {}
             if t.get("ser"): kw["serializer"] = custom_ser
@@ -244,10 +247,18 @@ def run_c19(ex, g, tier):
         except Exception:
             pass
         tasks += combos
+    # histories at the Python level: a rule object edited in place between two calls
+    muts = [({"var": "a"}, {"var": "b"}), ({"+": [1, 2]}, {"+": [1, 3]}), ({"if": [True, 1, 2]}, {"if": [False, 1, 2]}), ({"cat": ["a"]}, {"==": [1]}), ([1, 2], [3]),
+            ({"var": "a"}, {"cat": ["x", {"var": "a"}]}), ({"==": [1, 1]}, {"==": [1]}), ({"and": [1, {"var": "b"}]}, {"and": [0, {"var": "b"}]})]
+    for v0, v1 in muts:
+        if type(v0) == type(v1):
+            tasks.append(dict(kind="mutate", value0=v0, value=v1, data={"a": "A", "b": "B"}))
     for bad in ["", "{", "nul", "1 2", "{\"a\":1} trailing", "NaN", "[1,]", "{\"var\":\"a\"} {\"var\":\"b\"}", "1e400", "\"\\ud83d\""]:
         tasks += [dict(kind="ser", value=bad, data="null"), dict(kind="ser", value="{\"var\":\"\"}", data=bad), dict(kind="ser", value=bad), dict(kind="ser", value="1", data=bad, de=True)]
     # expected, from the model
     def texts_of(t):
+        if t["kind"] == "mutate":
+            return json.dumps(t["value"]), json.dumps(t.get("data"))
         if t["kind"] == "apply":
             dumps = (lambda o: json.dumps(o, separators=(",", ":"))) if t.get("ser") else json.dumps
             return dumps(t["value"]), dumps(t.get("data"))
